@@ -298,7 +298,7 @@ Theorem mint_parse_readback cn req :
   forallb cidr_ok req = true -> extract (rc_ext (mint_request cn req)) = Some (map canon req).
 Proof. intros W. apply extract_minted. apply canon_all_wf. exact W. Qed.
 
-(* in numbers: a.b.c.d/p admits the peer iff the peer's leading p bits are those of a.b.c.d *)
+(* in numbers: a.b.c.d/p accepts the peer iff the peer's leading p bits are those of a.b.c.d *)
 Theorem mint_parse_numeric cn req a0 a1 a2 a3 :
   forallb cidr_ok req = true -> a0 < 256 -> a1 < 256 -> a2 < 256 -> a3 < 256 ->
   (verify_ip (rc_ext (mint_request cn req)) (V4 a0 a1 a2 a3) = true <->
